@@ -204,6 +204,38 @@ let sk_top (t : ostring) : top =
   | _ -> failwith "top"
 let sk_outcome n = match int_of_nat n with 0 -> "Ok" | 1 -> "Err" | _ -> "Panic"
 
+(* ---- C04: placeholders (Proofs/PlaceholderProofs.v) ----
+   module  = part ; part ; ... ; L|sites        (the last part: late sites, metadata then use-list orders)
+   part    = v|ID|sites  |  d|ID  |  f|ID|label:sites/label:sites/...
+   sites   = F.B,F.B,...    ID, F, B, label = x<hex of the name> or <decimal number> *)
+let ph_ident (tok : ostring) =
+  if tok <> "" && tok.[0] = 'x' then sk_name (bytes_of_hx tok) else sk_num (z_of_dec tok)
+let ph_sites (s : ostring) =
+  List.map (fun t -> match Stdlib.String.split_on_char '.' t with
+    | [f; b] -> ph_site (ph_ident f) (ph_ident b) | _ -> failwith "site") (sk_split ',' s)
+let ph_module (s : ostring) =
+  let tops = ref [] and late = ref [] in
+  List.iter (fun part -> match Stdlib.String.split_on_char '|' part with
+    | ["v"; id; sites] -> tops := ph_var (ph_ident id) (ph_sites sites) :: !tops
+    | ["d"; id] -> tops := ph_decl (ph_ident id) :: !tops
+    | ["f"; id; blocks] ->
+      let bl = List.map (fun b -> match Stdlib.String.split_on_char ':' b with
+        | [l; sites] -> (ph_ident l, ph_sites sites) | _ -> failwith "block") (sk_split '/' blocks) in
+      tops := ph_def (ph_ident id) bl :: !tops
+    | ["L"; sites] -> late := !late @ ph_sites sites
+    | _ -> failwith "part") (sk_split ';' s);
+  (List.rev !tops, !late)
+let ph_const = function Some (f, b) -> Printf.sprintf "%d.%d" (int_of_nat f) (int_of_nat b) | None -> "-"
+let ph_consts l = Stdlib.String.concat "," (List.map ph_const l)
+let ph_entity = function
+  | None -> "?"
+  | Some ((false, _), [(_, init)]) -> "v=" ^ ph_consts init
+  | Some ((_, p), bl) ->
+    "f" ^ b2s p ^ "=" ^ Stdlib.String.concat "/" (List.map (fun (bp, cs) -> b2s bp ^ ":" ^ ph_consts cs) bl)
+let ph_show (code, (tops, late)) = match int_of_nat code with
+  | 0 -> "Ok " ^ Stdlib.String.concat ";" (List.map ph_entity tops @ ["L=" ^ ph_consts late])
+  | 1 -> "Err" | _ -> "Panic"
+
 (* ---- C10 ---- *)
 let show_fval (((code, s), m), e) = match int_of_nat code with
   | 0 -> "Z " ^ b2s s | 1 -> "F " ^ b2s s ^ " " ^ dec_of_z m ^ " " ^ dec_of_z e | 2 -> "I " ^ b2s s | 3 -> "N " ^ b2s s | _ -> "Panic"
@@ -276,6 +308,9 @@ let eval (kind : ostring) (ins : ostring list) : ostring list =
     [if c08_print_after_parse l then "Ok" else "Err"]
   | "md_assign", [ids] -> [match c17_assign (ints_of ids) with Some r -> "Ok " ^ of_ints r | None -> "Err"]
   | "skeleton", [tops] -> [sk_outcome (sk_translate (List.map sk_top (sk_split ';' tops)))]
+  | "placeholders", [m] ->
+    let (tops, late) = ph_module m in
+    [ph_show (ph_run false tops late); ph_show (ph_run true tops late)]
   | "history", [init; ops] ->
     let item_of t = match Stdlib.String.split_on_char ':' t with
       | [n; id; v; obj] -> (mk_item (n = "1") (z_of_dec id) (v = "1"), obj = "1") | _ -> failwith "item" in
